@@ -720,18 +720,49 @@ func (loader *Loader) resolveHeaderRef(doc *T, component *HeaderRef, documentPat
 		return nil
 	}
 
+	for _, name := range componentNames(value.Examples) {
+		if err := loader.resolveExampleRef(doc, value.Examples[name], documentPath); err != nil {
+			return err
+		}
+	}
 	for _, name := range componentNames(value.Content) {
-		if contentType := value.Content[name]; contentType != nil {
-			if schema := contentType.Schema; schema != nil {
-				if err := loader.resolveSchemaRef(doc, schema, documentPath, []string{}); err != nil {
-					return err
-				}
-			}
+		if err := loader.resolveMediaTypeRefs(doc, value.Content[name], documentPath); err != nil {
+			return err
 		}
 	}
 	if schema := value.Schema; schema != nil {
 		if err := loader.resolveSchemaRef(doc, schema, documentPath, []string{}); err != nil {
 			return err
+		}
+	}
+	return nil
+}
+
+// resolveMediaTypeRefs resolves the references a media type object holds: its examples, its schema
+// and the headers of its encodings.
+func (loader *Loader) resolveMediaTypeRefs(doc *T, contentType *MediaType, documentPath *url.URL) error {
+	if contentType == nil {
+		return nil
+	}
+	for _, name := range componentNames(contentType.Examples) {
+		if err := loader.resolveExampleRef(doc, contentType.Examples[name], documentPath); err != nil {
+			return err
+		}
+	}
+	if schema := contentType.Schema; schema != nil {
+		if err := loader.resolveSchemaRef(doc, schema, documentPath, []string{}); err != nil {
+			return err
+		}
+	}
+	for _, name := range componentNames(contentType.Encoding) {
+		encoding := contentType.Encoding[name]
+		if encoding == nil {
+			continue
+		}
+		for _, headerName := range componentNames(encoding.Headers) {
+			if err := loader.resolveHeaderRef(doc, encoding.Headers[headerName], documentPath); err != nil {
+				return err
+			}
 		}
 	}
 	return nil
@@ -790,12 +821,14 @@ func (loader *Loader) resolveParameterRef(doc *T, component *ParameterRef, docum
 	if value.Content != nil && value.Schema != nil {
 		return errors.New("cannot contain both schema and content in a parameter")
 	}
+	for _, name := range componentNames(value.Examples) {
+		if err := loader.resolveExampleRef(doc, value.Examples[name], documentPath); err != nil {
+			return err
+		}
+	}
 	for _, name := range componentNames(value.Content) {
-		contentType := value.Content[name]
-		if schema := contentType.Schema; schema != nil {
-			if err := loader.resolveSchemaRef(doc, schema, documentPath, []string{}); err != nil {
-				return err
-			}
+		if err := loader.resolveMediaTypeRefs(doc, value.Content[name], documentPath); err != nil {
+			return err
 		}
 	}
 	if schema := value.Schema; schema != nil {
@@ -857,21 +890,8 @@ func (loader *Loader) resolveRequestBodyRef(doc *T, component *RequestBodyRef, d
 	}
 
 	for _, name := range componentNames(value.Content) {
-		contentType := value.Content[name]
-		if contentType == nil {
-			continue
-		}
-		for _, name := range componentNames(contentType.Examples) {
-			example := contentType.Examples[name]
-			if err := loader.resolveExampleRef(doc, example, documentPath); err != nil {
-				return err
-			}
-			contentType.Examples[name] = example
-		}
-		if schema := contentType.Schema; schema != nil {
-			if err := loader.resolveSchemaRef(doc, schema, documentPath, []string{}); err != nil {
-				return err
-			}
+		if err := loader.resolveMediaTypeRefs(doc, value.Content[name], documentPath); err != nil {
+			return err
 		}
 	}
 	return nil
@@ -934,22 +954,8 @@ func (loader *Loader) resolveResponseRef(doc *T, component *ResponseRef, documen
 		}
 	}
 	for _, name := range componentNames(value.Content) {
-		contentType := value.Content[name]
-		if contentType == nil {
-			continue
-		}
-		for _, name := range componentNames(contentType.Examples) {
-			example := contentType.Examples[name]
-			if err := loader.resolveExampleRef(doc, example, documentPath); err != nil {
-				return err
-			}
-			contentType.Examples[name] = example
-		}
-		if schema := contentType.Schema; schema != nil {
-			if err := loader.resolveSchemaRef(doc, schema, documentPath, []string{}); err != nil {
-				return err
-			}
-			contentType.Schema = schema
+		if err := loader.resolveMediaTypeRefs(doc, value.Content[name], documentPath); err != nil {
+			return err
 		}
 	}
 	for _, name := range componentNames(value.Links) {
